@@ -84,6 +84,15 @@ type oracles struct {
 
 	streams map[*stream]*streamTrack
 	wtrack  map[string]*workerTrack
+	// mustTerminate: workers (by object identity) that existed when a
+	// TerminateWorkers call matching them began and that call has returned
+	// successfully: they may never be given a task again. Kept by the
+	// oracle itself, not read from the scheduler's terminating flag.
+	mustTerminate map[uintptr]string
+	// workerBorn: the step at which each live worker object was first seen
+	// (object identities are addresses, which may be reused once a worker
+	// is gone).
+	workerBorn map[uintptr]int
 	// kill statuses issued by the operator so far
 	kills        map[string]bool
 	inFlightKill *status_pb.Status
@@ -687,6 +696,9 @@ func (o *oracles) checkNewAssignment(pw, nw *scheduler.VerifWorker, prev, snap *
 		o.wtrack[key] = tr
 	}
 	tr.assignedTask, tr.reissues = nw.TaskID, 0
+	if why, ok := o.mustTerminate[nw.ID]; ok {
+		w.violate("C05/assigned-to-terminated-worker", fmt.Sprintf("worker %s in %v received task %s although %s returned successfully before and the worker existed when that call began", nw.WorkerKey, nw.Queue, nw.ActionDigest[:8], why))
+	}
 	if pw != nil && isDrained(prev, pw) && isDrained(snap, nw) {
 		w.violate("C05/assigned-to-drained-worker", fmt.Sprintf("worker %s in %v received task %s although it is drained or terminating", nw.WorkerKey, nw.Queue, nw.ActionDigest[:8]))
 	}
@@ -990,6 +1002,54 @@ func (o *oracles) processSyncEnd(obs observation, snap *scheduler.VerifSnapshot)
 func (o *oracles) wakeupInvariants(snap *scheduler.VerifSnapshot) {
 	w := o.w
 	op := w.operator
+	// Completed TerminateWorkers calls: remember whom they covered.
+	if o.mustTerminate == nil {
+		o.mustTerminate = map[uintptr]string{}
+	}
+	if o.workerBorn == nil {
+		o.workerBorn = map[uintptr]int{}
+	}
+	liveNow := map[uintptr]bool{}
+	for i := range snap.Workers {
+		id := snap.Workers[i].ID
+		liveNow[id] = true
+		if _, ok := o.workerBorn[id]; !ok {
+			o.workerBorn[id] = w.k.Step
+		}
+	}
+	for id := range o.workerBorn {
+		if !liveNow[id] {
+			delete(o.workerBorn, id)
+		}
+	}
+	for _, rec := range op.termDone {
+		if rec.start == nil {
+			continue
+		}
+		for i := range rec.start.Workers {
+			wk := &rec.start.Workers[i]
+			if born, ok := o.workerBorn[wk.ID]; !ok || born > rec.startStep {
+				// Gone, or a new object at a reused address.
+				continue
+			}
+			if matchesPattern(wk.WorkerID, rec.pattern) {
+				o.mustTerminate[wk.ID] = fmt.Sprintf("TerminateWorkers(%v)", rec.pattern)
+				w.k.Probe("worker_terminated_by_operator")
+			}
+		}
+	}
+	op.termDone = nil
+	if len(o.mustTerminate) > 0 {
+		live := map[uintptr]bool{}
+		for i := range snap.Workers {
+			live[snap.Workers[i].ID] = true
+		}
+		for id := range o.mustTerminate {
+			if !live[id] {
+				delete(o.mustTerminate, id)
+			}
+		}
+	}
 	if op.blocking && op.actor.Blocked() {
 		if op.termTasks == nil {
 			// First quiescent point inside TerminateWorkers: remember which
